@@ -164,6 +164,34 @@ def make_problem(inst):
                 b[n] = (lo, hi)
             return b
 
+        def path_constraints(self, ensemble_member):
+            out = []
+            colloc_names = xs + al + us
+            lo, hi = inst.get("pc_bounds") or (-7.0, 9.0)
+
+            def fac(f):
+                if f[0] == "D":
+                    return self.der(colloc_names[f[1]])
+                if f[0] == "v":
+                    return self.state(colloc_names[f[1]])
+                if f[0] == "c":
+                    return self.variable(cs[f[1]])
+                if f[0] == "t":
+                    return self._mx["time"][0]
+                if f[0] == "p":
+                    return self._mx["parameters"][f[1]]
+                raise ValueError(f)
+
+            for eq in inst.get("pc") or []:
+                e = ca.MX(float(eq["c"]))
+                for coef, facs in eq["t"]:
+                    term = ca.MX(float(coef))
+                    for f in facs:
+                        term = term * fac(f)
+                    e = e + term
+                out.append((e, lo, hi))
+            return out
+
         def map_options(self):
             return {"mode": "unroll"}
 
@@ -240,7 +268,7 @@ def eval_eqs(eqs, v, d, c, t, p):
                 k = f[0]
                 if k == "v":
                     term *= v[f[1]]
-                elif k == "d":
+                elif k == "d" or k == "D":
                     term *= d[f[1]]
                 elif k == "c":
                     term *= c[f[1]]
@@ -255,9 +283,9 @@ def eval_eqs(eqs, v, d, c, t, p):
 
 def is_affine_spec(inst):
     """affine in the decision variables: every monomial has at most one v/d factor"""
-    for eq in inst["eqs"] + (inst.get("init_eqs") or []):
+    for eq in inst["eqs"] + (inst.get("init_eqs") or []) + (inst.get("pc") or []):
         for _coef, facs in eq["t"]:
-            if sum(1 for f in facs if f[0] in ("v", "d")) > 1:
+            if sum(1 for f in facs if f[0] in ("v", "d", "D")) > 1:
                 return False
     return True
 
@@ -427,3 +455,47 @@ def add_own_times(rng, inst):
                 inst["modes"][u] = mode
             done = True
     return done
+
+
+def add_history_probe(rng, inst):
+    """histories for the non-differentiated variables (>= 2 points ending at t0: backward
+    difference; one point or none: 0) and a path constraint that depends on the derivatives of all
+    collocated variables -- its t0 instance exposes the initial derivatives the code hands to the
+    initial residual (the DAE residual itself cannot reference der() of an algebraic/control)."""
+    vs = var_names(inst)
+    ns = inst["ns"]
+    t0 = inst["ts"][0]
+    E = inst["E"]
+    hist = [{} for _ in range(E)]
+    for j, v in enumerate(vs):
+        r = rng.random()
+        if r < 0.15:
+            continue
+        k = 1 if r < 0.3 else rng.randint(2, 4)
+        steps = [rng.choice([0.5, 1.0, 0.3, 2.0]) for _ in range(k - 1)]
+        times = [t0]
+        for st in steps:
+            times.insert(0, times[0] - st)
+        for m in range(E):
+            hist[m][v] = {"times": list(times), "values": [dy(rng) for _ in times]}
+    inst["history"] = hist
+    nonlinear = inst["kind"] == "nonlinear"
+    pcs = []
+    for _ in range(rng.randint(1, 2)):
+        terms = []
+        for j in range(len(vs)):
+            if j >= ns or rng.random() < 0.5:
+                facs = [["D", j]]
+                if rng.random() < 0.3 and inst["npar"]:
+                    facs.append(["p", rng.randrange(inst["npar"])])
+                elif nonlinear and rng.random() < 0.3:
+                    facs.append(["v", rng.randrange(len(vs))])
+                terms.append([dy(rng), facs])
+        if rng.random() < 0.5:
+            terms.append([dy(rng), [["v", rng.randrange(len(vs))]]])
+        if inst["nci"] and rng.random() < 0.5:
+            terms.append([dy(rng), [["c", rng.randrange(inst["nci"])]]])
+        pcs.append({"c": rng.choice([0.0, dy(rng)]), "t": terms})
+    inst["pc"] = pcs
+    inst["pc_bounds"] = (-7.0, 9.0)
+    return inst
